@@ -1,7 +1,7 @@
 (* C20 — Lazily initialised shared state is safe under every thread interleaving.  Statements only. *)
 From Coq Require Import List Arith Bool ZArith Permutation String.
 From KV Require Import Base.Sx Gen.Generated Model.LazyInit Proofs.LazyInitP Model.TaskGraph Proofs.TaskGraphP
-                       Model.Guarded Proofs.GuardedP Model.SharedSites Proofs.SharedSitesP Model.LockOrder Proofs.LockOrderP.
+                       Model.Guarded Proofs.GuardedP Model.SharedSites Proofs.SharedSitesP Model.LockOrder Proofs.LockOrderP Proofs.ReqProgP.
 Import ListNotations.
 Close Scope Z_scope.
 Open Scope nat_scope.
@@ -401,3 +401,24 @@ Theorem C20_sched_example :
   map (seq_run nat gdia) [0; 1; 2; 3] = [Some 3; Some 13; Some 23; Some 299].
 Proof. exact sched_example. Qed.
 Print Assumptions C20_sched_example.
+
+(* ---------- threads RUNNING request programs against the pool ---------- *)
+(* ANY threads, each running ANY sequence of S3ChunkStore.request calls with ANY attempt outcomes (retried / succeeded /
+   raised / retries exhausted), whatever the two translated flags are, under EVERY interleaving: the pool never raises, no
+   attempt is sent without a borrowed session or through a session that is free or in other hands; once every thread has
+   finished nothing is borrowed any more and made = free + lost *)
+Theorem C20_requests_safe : forall fin sleep_in (reqs : nat -> list (list Z)) schedule,
+  let c := rcexec (fun t => thread_prog fin sleep_in t (reqs t)) schedule in
+  let r := rc_pool c in
+  p_err (r_pool r) = false /\ r_clash r = false /\ r_unheld r = false /\
+  ((forall t, rc_rem c t = []) -> p_held (r_pool r) = [] /\ p_next (r_pool r) = List.length (p_free (r_pool r)) + r_lost r).
+Proof. exact requests_safe. Qed.
+Print Assumptions C20_requests_safe.
+Theorem C20_requests_example :
+  let reqs := fun t : nat => match t with 0 => [[0%Z; 1%Z]; [1%Z]] | 1 => [[2%Z]; [0%Z; 0%Z; 1%Z]] | 2 => [[1%Z]] | _ => [] end in
+  let c := rcexec (fun t => thread_prog c20_pool_call_finally c20_request_sleep_in_borrow t (reqs t))
+                  [0; 1; 2; 0; 1; 1; 2; 2; 0; 0; 0; 1; 1; 0; 0; 0; 1; 1; 1; 1; 1; 1; 1; 1] in
+  (forall t, t < 3 -> rc_rem c t = []) /\ r_lost (rc_pool c) = 1 /\ p_next (r_pool (rc_pool c)) = 3 /\
+  List.length (p_free (r_pool (rc_pool c))) = 2.
+Proof. exact requests_example. Qed.
+Print Assumptions C20_requests_example.
